@@ -96,6 +96,8 @@ void archiveCases(Ctx& ctx, int part)
 	// every subset of size 0..3 of the pool (sorted as a conforming archive requires)
 	std::vector<std::vector<std::string>> sets = { {} };
 	for (std::size_t i = 0; i < pool.size(); ++i) { sets.push_back({ pool[i] }); for (std::size_t j = i + 1; j < pool.size(); ++j) { sets.push_back({ pool[i], pool[j] }); for (std::size_t l = j + 1; l < pool.size(); ++l) sets.push_back({ pool[i], pool[j], pool[l] }); } }
+	// names that differ in one punctuation character of a pair 0x20 apart, and names with consecutive dots
+	for (auto& tw : std::vector<std::vector<std::string>>{ { "slot[1].txt", "slot{1].txt" }, { "a]b", "a}b" }, { "x\\y", "x|y" }, { "p^q", "p~q" }, { "m@n", "m`n" }, { "v..2.txt", "v.2.txt", "v2.txt" }, { "..a", "a..", ".a." }, { "[", "{", "a" } }) sets.push_back(tw);
 	for (auto& names : sets) {
 		if (int(k++ % 8) != part) continue;
 		bool dup = false; for (std::size_t i = 0; i < names.size(); ++i) for (std::size_t j = i + 1; j < names.size(); ++j) if (ref::equalFold(names[i], names[j])) dup = true;
@@ -187,7 +189,7 @@ void resourceLayout(Ctx& ctx, const Layout& L, const std::string& label)
 	{ std::set<std::string> got(order.begin(), order.end()); if (got != std::set<std::string>{ "v1.vol", "v2.vol", "music.clm" }) { std::string all; for (auto& o : order) all += o + " "; bad("loaded-archives", "", all); mc::removeTree(base); return; } }
 
 	// --- streams ---
-	std::set<std::string> queryNames = { "a.txt", "B.TXT", "c.map", "s", "t1", "zz.txt", "inner.txt" };
+	std::set<std::string> queryNames = { "a.txt", "B.TXT", "c.map", "s", "t1", "zz.txt", "inner.txt", "n..o.txt", "v..2.txt", "q{1].txt", "q[1].txt", "absent..x" };
 	for (auto& qn : queryNames) for (auto& q : variants(qn)) for (int access = 0; access < 2; ++access) {
 		std::string key = "GetResourceStream('" + q + "', " + (access ? "true" : "false") + ")";
 		ctx.sub(label + " " + key);
@@ -219,7 +221,7 @@ void resourceLayout(Ctx& ctx, const Layout& L, const std::string& label)
 	}
 	// --- type listings ---
 	auto extOf = [](const std::string& n) { auto d = n.rfind('.'); return d == std::string::npos || d == 0 ? std::string() : n.substr(d); };
-	for (const std::string& e : { std::string(".txt"), std::string("txt"), std::string(".TXT"), std::string(".map"), std::string(".vol"), std::string(".clm"), std::string(".zzz"), std::string("") }) for (int access = 0; access < 2; ++access) {
+	for (const std::string& e : { std::string(".txt"), std::string("txt"), std::string(".TXT"), std::string(".map"), std::string(".vol"), std::string(".clm"), std::string(".zzz"), std::string(".tx2"), std::string("") }) for (int access = 0; access < 2; ++access) {
 		std::string key = "GetAllFilenamesOfType('" + e + "', " + (access ? "true" : "false") + ")";
 		ctx.sub(label + " " + key);
 		std::vector<std::string> got;
@@ -296,6 +298,11 @@ void build(Ctx& ctx)
 	int nc = 8;
 	for (int a = 0; a < 8; ++a) for (int b = 0; b < 8; ++b) for (int c = 0; c < nc; ++c) for (int s = 0; s < (ctx.thorough ? 2 : 1); ++s) {
 		Layout L; L.place["a.txt"] = a; L.place["B.TXT"] = b; L.place["c.map"] = c; L.place["s"] = ctx.thorough ? (s ? 7 : 2) : ((a * 3 + b) % 8);
+		// in every layout: names with two consecutive dots (loose, and as a member), names that differ only in one punctuation
+		// character of a pair 0x20 apart ('[' and '{') placed in different volumes, and - in every other layout - one volume
+		// that holds two names equal ignoring case (the reader accepts such a volume; type listings must still list one of them)
+		L.place["n..o.txt"] = 1; L.place["v..2.txt"] = 2; L.place["q{1].txt"] = 2; L.place["q[1].txt"] = 4;
+		if ((a + c) % 2 == 0) { L.place["dupA.tx2"] = 4; L.place["DUPA.TX2"] = 4; }
 		L.rootName = (a + b + c) % 4 == 0 ? "txt_a_vol_root" : "res";
 		L.unsortedVolumes = ((a ^ b ^ c ^ s) & 1) != 0;
 		L.rootSpelling = int((gLayouts.size() * 7 + std::size_t(a)) % 6);
